@@ -90,6 +90,7 @@ func (c *consumer) Get(ctx context.Context) (interface{}, error) {
 		// nil chan + nil err indicates sync success
 		c.offset++
 		c.cond.Broadcast()
+		verifAt("consumer.get.bcast", c, 0)
 		return v, nil
 	}
 
@@ -102,6 +103,7 @@ func (c *consumer) Get(ctx context.Context) (interface{}, error) {
 
 	c.offset++
 	c.cond.Broadcast()
+	verifAt("consumer.get.bcast", c, 0)
 
 	return result.Value, nil
 }
@@ -121,6 +123,7 @@ func (c *consumer) Commit() error {
 
 	c.offset = 0
 	c.cond.Broadcast()
+	verifAt("consumer.commit.bcast", c, 0)
 
 	return nil
 }
@@ -136,6 +139,7 @@ func (c *consumer) Rollback() error {
 
 	c.offset = 0
 	c.cond.Broadcast()
+	verifAt("consumer.rollback.bcast", c, 0)
 
 	return nil
 }
